@@ -250,6 +250,8 @@ void InterfacePayload::setData(const uint8_t* streamIds,
     ptr += sizeof(streamIdsCount);
     memcpy(ptr, streamIds, streamIdsCount);
     ptr += streamIdsCount;
+    if (padding)
+        *ptr = 0;
     ptr += padding;
 
     swappedLength = swapEndian(vendorDataLength);
